@@ -867,6 +867,9 @@ def series_strategy(
     )
     if nullable:
         strategy = null_field_masks(strategy)
+        if unique:
+            # more than one masked value would count as duplicates
+            strategy = strategy.filter(lambda x: not x.duplicated().any())
 
     def undefined_check_strategy(strategy, check):
         """Strategy for checks with undefined strategies."""
@@ -968,6 +971,9 @@ def index_strategy(
         strategy = strategy.map(lambda index: index.rename(name))
     if nullable:
         strategy = null_field_masks(strategy)
+        if unique:
+            # more than one masked value would count as duplicates
+            strategy = strategy.filter(lambda x: not x.duplicated().any())
     return strategy
 
 
@@ -1179,6 +1185,19 @@ def dataframe_strategy(
 
         if size is not None and size > 0 and any(nullable_columns.values()):
             strategy = null_dataframe_masks(strategy, nullable_columns)
+            unique_nullable_columns = [
+                col_name
+                for col_name, col in expanded_columns.items()
+                if col.nullable and col.unique
+            ]
+            if unique_nullable_columns:
+                # more than one masked value would count as duplicates
+                strategy = strategy.filter(
+                    lambda df: not any(
+                        df[col_name].duplicated().any()
+                        for col_name in unique_nullable_columns
+                    )
+                )
 
         if index is not None:
             strategy = set_pandas_index(strategy, index)
